@@ -106,6 +106,12 @@ func (s *vfStores) Add(ctx context.Context, stores ...sop.StoreInfo) error {
 	if s.w.hit("stores.Add") {
 		return vfErrInjected
 	}
+	// like fs.StoreRepository.Add: a store name can be added only once
+	for _, st := range stores {
+		if cur, _ := s.inner.Get(ctx, st.Name); len(cur) > 0 && cur[0].Name != "" {
+			return errors.New("can't add store " + st.Name + ", an existing item with such name exists")
+		}
+	}
 	return s.inner.Add(ctx, stores...)
 }
 func (s *vfStores) Remove(ctx context.Context, names ...string) error {
